@@ -276,10 +276,72 @@ Definition path_verdict (c : path_case) : N :=
   let repr := match pc_val c with
               | Some v => path_repr (fun _ => true) v
               | None => false end in
-  let bad := (pc_res c =? 99) || ((pc_res c =? 0) && repr && negb (pc_rt c)) in
+  let bad := (pc_res c =? 99) || ((pc_res c =? 0) && repr && negb (pc_rt c))
+             || ((pc_res c =? 0) && rpath_canonical (pc_rpc c) && negb repr) in
   (if mismatch then 1 else 0) + (if bad then 2 else 0).
 
-Inductive ccase := CSign (c : sign_case) | CSeg (c : seg_case) | CPath (c : path_case).
+(** * Segment values built through the API (add_entry), converted to RPC and back *)
+Record segrt_case := mkSegRt {
+  rc_val : segment;                                (* the value *)
+  rc_back : rsegment;                              (* implementation: value.into_rpc() *)
+  rc_dec : list (bytes * option (option rbody));   (* prost on each header_and_body *)
+  rc_res : N;                                      (* implementation: try_from_rpc(back) *)
+  rc_val2 : option segment }.
+
+Definition segrt_verdict (c : segrt_case) : N :=
+  let v := rc_val c in
+  let enc_info := fun (_ : Z) (_ : N) => si_enc (sg_info v) in
+  let dec_info := fun b => if bytes_eqb b (si_enc (sg_info v))
+                           then Some (Z.of_N (si_ts (sg_info v)), si_id (sg_info v)) else None in
+  let dec_hb := fun hb => match lookup (rc_dec c) hb with Some (Some _) => Some ([], hb) | _ => None end in
+  let dec_body := fun tok => match lookup (rc_dec c) tok with Some (Some (Some b)) => Some b | _ => None end in
+  let back := segment_to_rpc enc_info v in
+  let m := segment_from_rpc dec_hb dec_body enc_info dec_info (rc_back c) in
+  let mismatch :=
+    negb (rsegment_eqb back (rc_back c))
+    || match m with
+       | Ok v2 => negb ((rc_res c =? 0) && opt_eqb segment_eqb (Some v2) (rc_val2 c))
+       | Err e => negb (rc_res c =? rerr_code e)
+       | Panic _ => negb (rc_res c =? 99)
+       end in
+  let same := opt_eqb segment_eqb (Some v) (rc_val2 c) in
+  let known := negb same && seg_has_extensions v in
+  let bad := negb same && negb (seg_has_extensions v) in
+  (if mismatch then 1 else 0) + (if bad then 2 else 0) + (if known then 16 else 0).
+
+(** * Message-level cases: SignedMessage::sign / validate with any digest and associated data *)
+Record msg_case := mkMsg {
+  mc_hb : bytes; mc_sig : bytes;
+  mc_dec : option (option (Z * bytes * Z));        (* prost on header_and_body / header *)
+  mc_der : bool;                                   (* Signature::from_der *)
+  mc_key : option N;                               (* key the provider returns for the key id *)
+  mc_alen : N; mc_assoc : bytes;                   (* what the verifier supplies *)
+  mc_signed : list (N * N * bytes);                (* ledger for this signature: digest, key, input *)
+  mc_expect : bool;
+  mc_res : N }.
+
+Definition msg_verdict (c : msg_case) : N :=
+  let dec_hb := fun (_ : bytes) => match mc_dec c with Some _ => Some (([] : bytes), ([] : bytes)) | None => None end in
+  let dec_hdr := fun (_ : bytes) => match mc_dec c with
+                                    | Some (Some (alg, kid, alen)) => Some (mkHeader alg kid 0 [] alen)
+                                    | _ => None end in
+  let sig_parse := fun s : bytes => if mc_der c then Some s else None in
+  let sig_verify := fun (pk : N) (d : bytes) (sg : bytes) =>
+    match d with
+    | a :: d' => existsb (fun '(a', k, inp) => (a' =? a) && (k =? pk) && bytes_eqb inp d') (mc_signed c)
+    | [] => false end in
+  let m := sm_validate c_hash sig_parse sig_verify dec_hb dec_hdr (fun _ => mc_key c)
+                       (mkSigned (mc_hb c) (mc_sig c)) (mc_alen c) (mc_assoc c) in
+  let mismatch := negb (verr_code m =? mc_res c) in
+  let bad := (mc_res c =? 99) || negb (Bool.eqb (mc_res c =? 0) (mc_expect c)) in
+  (if mismatch then 1 else 0) + (if bad then 2 else 0).
+
+Inductive ccase :=
+| CSign (c : sign_case) | CSeg (c : seg_case) | CPath (c : path_case)
+| CSegRt (c : segrt_case) | CMsg (c : msg_case).
 Definition verdict (c : ccase) : N :=
-  match c with CSign s => sign_verdict s | CSeg s => seg_verdict s | CPath s => path_verdict s end.
+  match c with
+  | CSign s => sign_verdict s | CSeg s => seg_verdict s | CPath s => path_verdict s
+  | CSegRt s => segrt_verdict s | CMsg s => msg_verdict s
+  end.
 Definition verdicts (cs : list ccase) : list N := map verdict cs.
